@@ -260,7 +260,8 @@ pub fn checks() -> Vec<Check> {
         level: "model_checking",
         stages: vec![
             st("c12.g1", c12::g1, (0, 0), 3, "writer direction: widths 0..64 x 3 range shapes x 4 anchors (0, -3, i64::MIN, i64::MAX) x hooked capacity 1..16 x Integer/ScaledInteger; boundary + walking-bit values; stream bytes vs independent bit codec, then read back with the real reader"),
-            st("c12.g2", c12::g2, (1, 2), 3, "reader direction: widths 0..64 x 4 anchors x Integer/ScaledInteger, e57spec-encoded streams in 2 (thorough 3) packets, every byte cut of every record stream (thorough: all pairs)"),
+            st("c12.g2", c12::g2, (1, 2), 3, "reader direction: widths 0..64 x 4 anchors x Integer/ScaledInteger, e57spec-encoded streams in 2 (thorough 3) packets, every byte cut of every record stream (thorough: all pairs), default limits optionally left out (one-sided declarations)"),
+            st("c12.g5", c12::g5, (0, 0), 3, "prototypes whose four records all have zero width, every Integer / ScaledInteger combination x {1, 3, 100} points x {real writer, independent encoder}"),
             st("c12.g3", c12::g3, (0, 0), 3, "natural packet capacity: for every width one file of capacity+9 points (w-bit + 1-bit + 0-bit records)"),
             st("c12.g4", c12::g4, (0, 0), 3, "direct drive (hook): w<=12, every value of the width at every position of a 9-value stream, get_full_bytes after every index, reader append split at every byte"),
             st("c12.g4b", c12::g4b, (0, 0), 3, "direct drive (hook): w<=5, every 3-value sequence after 0..7 leading values, flushed after every value"),
@@ -297,6 +298,7 @@ pub fn checks() -> Vec<Check> {
         level: "fault_enumeration",
         stages: vec![
             st("c15.crash", c15::crash, (0, 0), 3, "12 hand-listed shapes + all programs of depth <=2 (thorough <=3) over the 30-op alphabet x every prefix of the device write log x every byte cut of the cut write"),
+            st("c15.stale_device", c15::stale_device, (0, 0), 3, "device holding an older complete file (14 shapes) x handle at start / end x crash after E57Writer::new, add_pointcloud, 3 points: the writer refuses to start, or what is on the device before its finalize is rejected"),
             st("c15.dropped", c15::dropped, (0, 0), 3, "the same programs with the writers dropped without top-level finalize after every API position (optionally abandoning the last point cloud writer)"),
         ],
         extra: None,
@@ -309,7 +311,7 @@ pub fn checks() -> Vec<Check> {
         id: "C16",
         level: "fault_enumeration",
         stages: vec![
-            st("c16.writer_faults", c16::writer_faults, (0, 0), 3, "12 hand-listed shapes + all programs of depth <=2 (thorough <=3): in the fault-free run every device write is covered by a flush when finalize returns; one injected device error at every device-operation index (read/write/seek/flush)"),
+            st("c16.writer_faults", c16::writer_faults, (0, 0), 3, "12 hand-listed shapes + 10 image programs (5 representation kinds x with/without mask) + all programs of depth <=2 (thorough <=3): in the fault-free run every device write is covered by a flush when finalize returns; one injected device error at every device-operation index (read/write/seek/flush)"),
             st("c16.writer_chunks", c16::writer_chunks, (1, 2), 3, "the same programs: every chunking schedule with <=1 (thorough <=2) short transfers {1 byte, half, len-1} of device and blob-source transfers + 3 uniform schedules"),
             st("c16.reader_faults", c16::reader_faults, (0, 0), 3, "4 files x reader program (validate_crc, raw_xml, open, every read op): one injected device error at every device-operation index"),
             st("c16.reader_chunks", c16::reader_chunks, (1, 2), 3, "4 files x reader program under every schedule with <=1 (thorough <=2) short reads + 3 uniform schedules"),
@@ -375,7 +377,7 @@ pub fn checks() -> Vec<Check> {
         stages: vec![
             Stage { timeout_s: 120, ..st("c20.t1_lattice", c20::t1_lattice, (0, 0), 3, "XYZ -> E57 -> XYZ through the built binaries: every finite f32 of the mini-float lattice + specials in 3 spellings (shortest, exponent, plain decimal) x 3 column rotations, all 256 colour values per channel") },
             Stage { timeout_s: 120, ..st("c20.t1_shapes", c20::t1_shapes, (2, 2), 3, "line counts {5, 0, 1, cap-1, cap, cap+1} x <=2 deviations over CRLF, missing final newline and 7 line shapes (7+ columns, 5 columns, empty, trailing/leading space, comment)") },
-            st("c20.t2_check_crc", c20::t2_check_crc, (1, 1), 3, "e57-check-crc on 6 files + 11 scenes (<=1 layout deviation): intact, every page damaged in payload, in checksum, truncated by a page, by a byte; exit status vs library and independent page check"),
+            st("c20.t2_check_crc", c20::t2_check_crc, (1, 1), 3, "e57-check-crc on 6 files + 11 scenes (<=1 layout deviation): intact, every page damaged in payload, in checksum, truncated by a page, by a byte; exit status vs library and independent page check; signature and header bytes 0, 7, 20, 44 damaged"),
             st("c20.t2_check_crc_dir", c20::t2_check_crc_dir, (0, 0), 3, "directory mode of e57-check-crc: 3 E57 files (one in a sub directory, upper-case extension) + a non-E57 file, none or exactly one damaged (payload / checksum), 3 file sets"),
             st("c20.t3_unpack", c20::t3_unpack, (1, 1), 3, "e57-extract-xml and e57-unpack on the same corpus, intact and with every single page damaged: output files vs raw_xml / xml() / raw values / blob bytes from the library"),
         ],
